@@ -617,19 +617,20 @@ impl<'cmd> Parser<'cmd> {
         debug!("Parser::possible_long_flag_subcommand: arg={arg:?}");
         if self.cmd.is_infer_subcommands_set() {
             let mut iter = self.cmd.get_subcommands().filter_map(|sc| {
-                sc.get_long_flag().and_then(|long| {
-                    if long.starts_with(arg) {
-                        Some(sc.get_name())
-                    } else {
-                        sc.get_all_long_flag_aliases().find_map(|alias| {
-                            if alias.starts_with(arg) {
-                                Some(sc.get_name())
-                            } else {
-                                None
-                            }
-                        })
-                    }
-                })
+                // A subcommand may be reachable through long flag aliases only
+                let by_long_flag = sc
+                    .get_long_flag()
+                    .map(|long| long.starts_with(arg))
+                    .unwrap_or(false);
+                if by_long_flag
+                    || sc
+                        .get_all_long_flag_aliases()
+                        .any(|alias| alias.starts_with(arg))
+                {
+                    Some(sc.get_name())
+                } else {
+                    None
+                }
             });
 
             if let name @ Some(_) = iter.next() {
